@@ -638,9 +638,8 @@ def replay_case(case):
     # re-execute the single history straight-line (no BFS)
     cfg, auto, ops = case["cfg"], case["auto"], case["ops"]
     sl = straight_line(cfg, auto, ops)
-    if sl:
-        return [{"key": k, "what": w} for k, w in sl]
-    out = []
+    # (both re-executions are reported: the one-folder straight line and the step-by-step one, whose keys are those of the search)
+    out = [{"key": k, "what": w} for k, w in sl]
     with C.scratch() as root:
         F = root / "F"
         live = C.build(dict(cfg, saving_folder=str(F)) if auto else cfg)
